@@ -199,7 +199,9 @@ def run(case):
                     bh.write_fits(im, _image(rows, 20, 1))
                 box = max(4, 2 * g)
                 specs.append({'k': k, 'image': im, 'shape': [rows, 20], 'grid': [g, g], 'box': [box, box],
-                              'cores': c, 'nslice': s})
+                              'cores': c, 'nslice': s, 'mask': bool((rows + g + c + s) % 5 != 0)})
+                if not specs[-1]['mask']:
+                    o.count('config_runs_without_mask_pass')
             res = bh.run_specs(specs, sc)
             for sp in specs:
                 o.n_eval += 1
